@@ -191,6 +191,10 @@ func signCOSE() {
 	}
 	inv = rt.Or(inv, invalidAttrs())
 	rt.Assert(rt.Implies(inv, err != nil), "C16.cose.invalid.request.rejected")
+	if focus == 1 {
+		// with an environment that does not fail, every valid request (with a well-formed content type) is signed
+		rt.Assert(rt.Implies(err != nil, rt.Or(inv, ctyChoice != 0)), "C08.cose.valid.request.succeeds")
+	}
 	// ---- C15.L3
 	wantTS := rt.And(isX509, req.Timestamper != nil)
 	if tsCalls > 0 {
@@ -226,6 +230,26 @@ func signCOSE() {
 	rt.Assert(int(c.SignerInfo.SignatureAlgorithm) == row && row != 0, "C08.cose.algorithm.of.signer")
 	rt.Assert(len(signLog) == 1 && rt.BytesEq(c.SignerInfo.Signature, signLog[0].sig), "C08.cose.signature.of.signer")
 	rt.Assert(len(c.SignerInfo.CertificateChain) == len(signerCerts), "C08.cose.chain.len")
+	if len(c.SignerInfo.CertificateChain) == len(signerCerts) {
+		for i := range signerCerts {
+			rt.Assert(c.SignerInfo.CertificateChain[i] == signerCerts[i], "C08.cose.chain.order")
+		}
+	}
+	rt.Assert(rt.StrEq(c.SignerInfo.UnsignedAttributes.SigningAgent, req.SigningAgent), "C08.cose.agent")
+	// the bytes handed to the signer are the Sig_structure over this message's protected bytes and the request's payload:
+	// exactly what a verifier of the emitted message recomputes
+	handed := false
+	if len(signLog) == 1 {
+		msg := e.Envelope.(*envelope).base
+		for _, t := range tbsLog {
+			if rt.Same(t.out, signLog[0].payload) && rt.Same(t.payload, req.Payload.Content) {
+				// the protected bytes are the encoding of the message's protected header as it is now
+				p, perr := msg.Headers.MarshalProtected()
+				handed = perr == nil && rt.Same(t.protected, p)
+			}
+		}
+	}
+	rt.Assert(handed, "C08.cose.signed.bytes.are.the.verified.bytes")
 	if tsCalls == 1 && !tsErr {
 		rt.Assert(rt.BytesEq(c.SignerInfo.UnsignedAttributes.TimestampSignature, tsToken), "C15.L3.cose.token.embedded")
 	} else {
